@@ -422,7 +422,7 @@ def main(argv):
         hk = ck.harness("h_kernelargs")
         if hk:
             if ck.tier == "quick":
-                run_kernels(ck, hk, db, nfiles=4, nk=12, nargs=6)
+                run_kernels(ck, hk, db, nfiles=3, nk=10, nargs=5)
             else:
                 run_kernels(ck, hk, db, nfiles=40, nk=30, nargs=25)
     ck.finish(META["level_text"])
